@@ -630,7 +630,10 @@ class Plucker(SMUserList):
         :seealso: Plucker.intersects, Plucker.parallel
         """
         l1 = self
-        return not l1.isparallel(l2) and (abs(l1 * l2) < 10*_eps )
+        # the reciprocal product is of the order of the distances of the lines from the
+        # origin: tolerance relative to them
+        scale = max(1.0, l1.ppd + l2.ppd)
+        return not l1.isparallel(l2) and (abs(l1 * l2) < 10*_eps*scale )
     
     # ------------------------------------------------------------------------- #
     #  PLUCKER LINE DISTANCE AND INTERSECTION
